@@ -24,6 +24,15 @@ def _cut_cache_priv(txt):
     txt, n = re.subn(r"\}\s*data;\s*\n(\s*\n\s*/\* Dynamic size)", r"} other; } data;\n\1", txt)
     if n != 1:
         return txt + "\n#error asm cut: end of page union not found\n"
+    # (4) page statistics: cache_network._pages[0x800] is an array cbmc does not expand; after the first store into it (store_lop records page type and
+    #     sub-code) no entry constant-folds any more and the page-type switch of the next header explores every page function (vbi_convert_page to POP,
+    #     DRCS, AIT ...).  The accessor hands out harness-owned entries: one per page number that occurs, a shared one (access counted, asserted 0) else.
+    txt, n = re.subn(r"return &cn->_pages\[pgno - 0x100\];", "return asm_page_stat((cache_network *) cn, pgno);", txt)
+    if n != 2:
+        return txt + "\n#error asm cut: page statistics accessors not found\n"
+    txt, n = re.subn(r"(/\*\* @internal \*/\s*_vbi_inline struct ttx_magazine \*\s*cache_network_magazine)", r"extern struct ttx_page_stat *asm_page_stat(cache_network *cn, vbi_pgno pgno);\n\1", txt)
+    if n != 1:
+        return txt + "\n#error asm cut: place for the accessor prototype not found\n"
     return txt
 
 
@@ -44,18 +53,141 @@ def _cut_ttx(txt):
     return txt if n == 1 else txt + "\n#error asm cut: raw_page[8] not found\n"
 
 
-ASM_CUT = {"src/cache-priv.h": _cut_cache_priv, "src/packet.c": _cut_packet, "src/teletext_decoder.h": _cut_ttx}
+def _cut_event(txt):
+    # (3) event.h: the union `ev` of vbi_event as a struct.  store_lop builds its event in a local: `event.ev.ttx_page.roll_header` written to a union
+    #     member is read back as a byte extract that does not fold, and the channel switch heuristic (same_header(), pointers with symbolic offsets)
+    #     is explored although the control bits exclude it.  No code in packet.c reads a member of `ev` other than the one it wrote.
+    txt, n = re.subn(r"(typedef struct vbi_event \{\s*int\s+type;\s*)union \{", r"\1struct {", txt)
+    return txt if n == 1 else txt + "\n#error asm cut: vbi_event union not found\n"
+
+
+ASM_CUT = {"src/cache-priv.h": _cut_cache_priv, "src/packet.c": _cut_packet, "src/teletext_decoder.h": _cut_ttx, "src/event.h": _cut_event}
 CUT_STUBS = [
     "cut: vbi_decoder.vt.raw_page[8] as eight pointers to harness-owned raw pages (the two magazines involved own one each, the other six share one); packet.c's two index expressions rewritten",
     "cut: page union of cache_page: Level One family (unknown/lop/enh_lop/ext_lop, identical prefixes) as ONE struct, other families in a union beside it; member names in packet.c rewritten textually; sound while every page function is UNKNOWN/LOP/DISCARD (concrete here)",
+    "cut: cache_network_page_stat() hands out harness-owned statistics entries, one per page number that occurs in the scenario (any other access is counted and asserted absent)",
+    "cut: union `ev` of vbi_event as a struct (no member is read other than the one written)",
     "libc models (solver build only, R19): memcpy/memset/memmove as byte loops with concrete lengths; whole-sub-object copies (page data, page head + Level One part, link table fill) as typed assignments",
     "struct caption carved out of vbi_decoder (include guard CC_H + dummy)", "RECORDING cache stub: _vbi_cache_put_page logs page/sub-page number, function, received-rows mask and three rows and answers with a page; "
     "_vbi_cache_get_page answers with the hit/miss chosen by the grid; cache_page_size: full size", "vbi_send_event: logs TTX_PAGE page/sub-page numbers", "vbi_chsw_reset: counted",
     "vbi_cni_table: empty", "8/30 + VPS decoders: stub FALSE", "_vbi_strlcpy: local copy"]
 
 BASE = dict(harness="h_asm.c", units=["src/hamm.c"], flags=["--no-undefined-shift-check"], patch=ASM_CUT, stubs=CUT_STUBS,
-            unwindset={"memcpy.0": 4700, "memset.0": 4700, "memset.1": 40, "memmove.0": 4700, "memmove.1": 4700})
+            unwindset={"memcpy.0": 4700, "memset.0": 40, "memset.1": 4700, "same_header.0": 26, "memmove.0": 4700, "memmove.1": 4700})
+
+
+def _g(m1=1, p1=0x70, m2=1, p2=0x71, ser=0, era1=0, era2=0, hit2=0, q=0, qp=0x33, h3=0, p3=0x75, **kw):
+    d = dict(AM1=m1, AP1="0x%02x" % p1, AM2=m2, AP2="0x%02x" % p2, ASER=ser, AERA1=era1, AERA2=era2, AHIT2=hit2, AQ=q, AQP="0x%02x" % qp, AH3=h3, AP3="0x%02x" % p3)
+    d.update(kw)
+    return d
+
+
+def term_grid():
+    quick = [
+        _g(),                                                    # parallel, own magazine, next page: terminated now
+        _g(ser=1, hit2=1, h3=1),                                 # serial, own magazine, next page, then a further header
+        _g(p2=0x70, hit2=1, h3=1),                               # own magazine, same number, no erase: not terminated; the next different header stores it once
+        _g(m2=2, p2=0x70, h3=1),                                 # parallel, other magazine (same tens/units): untouched, stored by its own magazine's next header
+        _g(m2=2, p2=0x70, q=1, h3=1),                            # ... with a page in progress in the other magazine, which that header terminates
+        _g(m2=2, p2=0x70, ser=1, hit2=1, h3=1),                  # serial, other magazine, same tens/units, H's page cached: completed early, never twice
+        _g(m2=2, p2=0x59, ser=1, era2=1, h3=1),                  # serial, other magazine, H erases: completed early, not again by its own magazine
+        _g(m2=2, p2=0x59, ser=1, hit2=0, h3=1),                  # serial, other magazine, H's page new to the cache
+        _g(m2=2, p2=0x59, ser=1, era1=1, era2=1, h3=1),          # serial, P carries C4: completed by its own magazine's next header at the latest
+        _g(m2=2, p2=0x59, ser=1, era1=1, hit2=1, h3=1),          # serial, P carries C4, H's page cached without C4 (serial open page dropped: defect of the pinned tree, repaired)
+        _g(m2=2, p2=0x59, ser=1, hit2=1, q=1, h3=1),             # serial, a page with C4 open in H's magazine (serial open page dropped: defect of the pinned tree, repaired)
+        _g(m1=8, p1=0x99, m2=1, p2=0x99, ser=1, hit2=1, h3=1, p3=0x00),   # magazine 8 (index 0) -> magazine 1
+    ]
+    full = list(quick)
+    for (m1, p1, m2, p2, p3) in ((1, 0x70, 1, 0x71, 0x75), (1, 0x70, 1, 0x70, 0x75), (1, 0x70, 2, 0x70, 0x75), (1, 0x70, 2, 0x59, 0x75), (8, 0x99, 1, 0x99, 0x00), (2, 0x34, 8, 0x35, 0x33)):
+        for ser in (0, 1):
+            for era1 in (0, 1):
+                for era2, hit2 in ((0, 1), (0, 0), (1, 0)):
+                    for q in ((0, 1, 2) if m2 != m1 else (0,)):
+                        for got in (1, 0):
+                            x = _g(m1, p1, m2, p2, ser, era1, era2, hit2, q, 0x33, 1, p3)
+                            if not got:
+                                x["AGOT"] = 0
+                            if x not in full:
+                                full.append(x)
+    return full, quick
 
 
 def asm_obs():
-    return []
+    full, quick = term_grid()
+    o = []
+    o.append(Ob("asm_header_terminates", func="h_asm_term", unwind=50, vin_size=256, defines={"H_TERM": None}, reach=["end"],
+        desc="vbi_decode_teletext over a packet SEQUENCE: a page P (LOP, sub-page number symbolic) is in progress in magazine M1 = vt.current with one row kept from "
+             "an earlier transmission; a row packet X/7 of M1 (payload symbolic) is decoded; then a header H of magazine M2 / page P2 (32 display bytes symbolic; cache "
+             "answers hit or miss) and a header H3 of M1 with another page number.  Own magazine, different number: P handed to the cache exactly once AT H under its "
+             "page and sub-page number with the received row (iff parity good) and the kept row, exactly one TTX_PAGE event with those numbers, new page opened.  "
+             "Own magazine, same number, no erase: not terminated.  Other magazine, parallel mode: P untouched (function, numbers, flags, rows), nothing of P "
+             "stored; a page Q in progress in M2 is stored exactly once.  Other magazine, serial mode: P may be completed at H, and after H3 - the next header of "
+             "its own magazine, the latest point the property allows - it has been stored EXACTLY once with exactly one event; the page H opened in M2 is either "
+             "still in progress or was completed exactly once (not lost).  No channel switch is signalled",
+        encodes=["vbi_decode_teletext (case 0, case 1..25)", "store_lop", "lop_parity_check", "vbi_convert_page"],
+        bounds="3 packets (row, header, header); magazines, page numbers, C11 serial, C4 erase of P / Q / H, the cache's answer for H and whether the row arrives are the runner grid "
+               "(quick: 12 scenarios; thorough: 6 magazine/page constellations x serial x erase x hit/miss x Q x row = ~300); every control bit is a grid constant (C7 suppress "
+               "header set: store_lop's channel switch heuristic is not entered); sub-codes of the headers concrete; P's sub-page number, the row payloads and header text symbolic",
+        outside="the cache itself (C10, cache_put_put_get), the channel switch heuristic of store_lop (same_header), pages of other functions than LOP, X/26..X/28 between "
+                "the headers (asm_x26_triplet_error, ttx_dispatch), more than two following headers",
+        grid=full, quick_grid=quick, timeout=300, mem_gb=3, **BASE))
+    # the defect demonstration (NOT part of asm_obs(): refuted on the unchanged tree) is asm_defect_obs() below
+    PG = [dict(AM1=1, AP1="0x70", AM2=2, AP2="0x71", AQ=q, AQP="0x33", ASER=ser, AERA1=e1, ABADBYTE=b, ABADMASK=m, ABADDIGIT=dg)
+          for (ser, q, e1) in ((0, 2, 0), (0, 1, 1), (1, 2, 0), (1, 1, 1)) for (b, m, dg) in ((0, "0x41", 3), (1, "0x41", 7), (0, "0x03", 0), (1, "0x88", 9))]
+    PGX = [dict(g, AMH=3) for g in PG[:4]] + [dict(g, AM1=8, AM2=1, AMH=1) for g in PG[:2]]
+    o.append(Ob("asm_header_pageno_error", func="h_asm_pageno_error", unwind=50, vin_size=256, defines={"H_PGERR": None}, reach=["end"],
+        desc="C03 'an uncorrectable header only abandons the pages in progress': two pages in progress (P in magazine M1 = vt.current, Q in magazine M2, a row received "
+             "each, sub-page numbers symbolic); a header whose page number byte is uncorrectable (two bit errors; every other byte of the packet symbolic) is rejected, "
+             "stores nothing, raises no event and marks the page in progress of EVERY magazine abandoned; a following row packet and the next good header of M2 "
+             "store nothing either (the abandoned page never reaches the cache with foreign rows)",
+        encodes=["vbi_decode_teletext (case 0, case 1..25)", "vbi_teletext_desync"],
+        bounds="3 packets (damaged header, row, good header); the damaged byte (units / tens), its error pattern, the other digit (5), the magazine of the damaged header (Q's, a third one), serial / parallel and "
+               "C4 of the pages in progress on the runner grid; control bits grid constants",
+        outside="errors in the sub-code / control bytes (ttx_header: hdr_subcode_or_control_error_discards), in the address bytes (ttx_addr_error)",
+        grid=PG + PGX, quick_grid=[PG[0], PG[5], PG[10], PG[15], PGX[0]], timeout=300, mem_gb=3, **BASE))
+    X26 = [dict(ADES=d) for d in (0, 1, 5, 13)]
+    o.append(Ob("asm_x26_triplet_error", func="h_asm_x26", unwind=50, vin_size=256, defines={"H_X26": None}, reach=["end", "bad_triplet", "all_good"],
+        desc="C03 / X/26 through the dispatcher, two packets: X/26/d (13 symbolic triplets) on a Level One page in progress whose enhancement is in sequence, then "
+             "X/26/d+1.  With f = the first triplet vbi_unham24p rejects (symbolic place, or none): triplets before f are stored in their slots d*13+k with address / "
+             "mode / data of the decoded word, NO slot from f on is written (it keeps the 0xFF terminator the header path left there), the triplet count stops "
+             "at d*13+f, nothing outside the packet's 13 slots changes; after an error the next packet is out of sequence: rejected, stores nothing, enhancement "
+             "marked broken (-1); without an error it is accepted",
+        encodes=["vbi_decode_teletext (case 26)"],
+        bounds="designation d on the grid (0, 1, 5, 13); page function LOP; which triplets are correctable is vbi_unham24p's own verdict (decided against the standard by C03 ham24*)",
+        outside="consumers of the enhancement (lop_parity_gate_x26, the formatter)", grid=X26, quick_grid=X26[:2], timeout=300, mem_gb=3, **BASE))
+    X28a = [dict(ADES28=d) for d in (2, 3, 5, 6, 15, 1)]
+    o.append(Ob("asm_x28_designations", func="h_asm_x28", unwind=50, vin_size=256, defines={"H_X28": None}, reach=["end"],
+        desc="C01 / X/28 through the dispatcher on a Level One page in progress (payload symbolic, x28_designations before: any subset of 0x13): the bookkeeping only "
+             "records designations whose extension was taken - X/28/2, /3, /5.. leave it unchanged, X/28/1 sets bit 1 and marks the extension; no bit outside 0x13 "
+             "(cache_page_size() sizes the cached page by x28_designations & 0x13, page_language() reads the extension for ANY non-zero value)",
+        encodes=["vbi_decode_teletext (case 28)", "parse_28_29"], bounds="designation on the grid (1, 2, 3, 5, 6, 15); page function LOP",
+        outside="M/29; pages of other functions", grid=X28a, quick_grid=[dict(ADES28=d) for d in (2, 3, 15, 1)], timeout=300, mem_gb=3, **BASE))
+    X28b = [dict(ADES28=0), dict(ADES28=4), dict(ADES28=0, AX28FN=2), dict(ADES28=4, AX28FN=3), dict(ADES28=0, AX28FN=0)]
+    o.append(Ob("asm_x28_rejected_not_recorded", func="h_asm_x28", unwind=50, vin_size=256, defines={"H_X28": None}, reach=["end"],
+        desc="C01 / X/28/0 and X/28/4 through the dispatcher (13 symbolic triplets): a packet that announces another page function than LOP is rejected and NOT recorded "
+             "in x28_designations; whenever the bit is recorded the extension carries the designation too",
+        encodes=["vbi_decode_teletext (case 28)", "parse_28_29", "get_bits"], bounds="designation 0 / 4; first triplet symbolic or its function field on the grid; page function LOP",
+        grid=X28b, quick_grid=X28b[:3], timeout=300, mem_gb=4, **BASE))
+    return o
+
+
+def asm_defect_obs():
+    """the two constellations in which the unchanged tree loses a page in serial mode (known finding serial_open_page_dropped): same harness without the KNOWN_ guard"""
+    g = [_g(m2=2, p2=0x59, ser=1, era1=1, hit2=1, h3=1), _g(m2=2, p2=0x59, ser=1, hit2=1, q=1, h3=1)]
+    o = asm_obs()[0]
+    return [Ob("asm_serial_open_page_dropped", func="h_asm_term", unwind=50, vin_size=256, defines={"H_TERM": None}, reach=["end"],
+               desc="as asm_header_terminates without the KNOWN_serial_open_page_dropped guard: serial mode, a page with C4 (or new to the cache) open in magazine B, a cached page "
+                    "without C4 transmitted in magazine A, then B's next header: B's page must have been stored by then (REFUTED on the unchanged tree: it is dropped)",
+               encodes=o.encodes, bounds="two constellations", grid=g, timeout=300, mem_gb=3, **BASE)]
+
+
+def asm_roll_obs():
+    """NOT REGISTERED (no verdict): the channel switch heuristic of store_lop on a CONSISTENT header (harness h_asm_roll_header: template text, AKWIN symbolic characters in
+    front of the page number, clocks symbolic).  Measured on the unchanged tree: symex 27 s, 907 VCCs, then no end of the propositional reduction in 280 s / 2.0 GB -
+    same_header() advances `cur` / `ref` by 3 under a symbolic condition, every later read goes through a pointer with a symbolic offset into the 8 KB raw page and the
+    decoder.  Candidate finding it was built for (from reading, reported by a seeding agent): same_header() takes the FIRST three characters equal to the page number
+    digits for the page number; a header whose date / station name spells the page number in front of the real page number field compares the real digits against
+    the reference header's, finds them different, and store_lop calls vbi_chsw_reset() (cache flush, page swallowed) for a network that did not change."""
+    return [Ob("asm_consistent_header_no_channel_switch", func="h_asm_roll_header", unwind=50, vin_size=256, defines={"H_ROLL": None}, reach=["end"],
+               desc="store_lop / same_header on a network with a consistent header: no channel switch signalled, page stored once", encodes=["store_lop", "same_header", "same_clock"],
+               bounds="template header text, 4 symbolic characters before the page number", grid=[dict(AKPOS=24, AKWIN=4)], tier="thorough", timeout=900, mem_gb=8, **BASE)]
